@@ -155,6 +155,7 @@ func checkC01(w *World, r *Report) {
 	}
 	r.Rule("C01.confine", "P2,P3,P4", "BANK.mint is reachable only from cfeminter's BeginBlock tree and BANK.burn only from cfedistributor's; no message, query, ValidateBasic, genesis, migration, upgrade or invariant entry point reaches either", 2)
 	r.Rule("C01.iface", "P8", "the expected-keeper interfaces of cfevesting and cfesignature contain no supply-changing or delegation method, and neither module imports a concrete bank keeper", 4)
+	r.Rule("C01.parties", "P6", "closed world: the accounts between which a cfevesting / cfesignature message moves coins are named by the message itself (addresses parsed from its fields) or are the module's own account - never an address obtained from another keeper, the store or the chain state", 4)
 	r.Rule("C01.moveonly", "P4", "every bank atom reachable from a cfevesting / cfesignature message is a move or a read, and module-name arguments of moves are the module's own constant", 5)
 	r.Rule("C01.mint1", "P5,P6", "in the minting routine: one mint per activation, not in a loop; the coins minted, the coins forwarded to the collector and the amount added to AmountMinted are the same value; module names are cfeminter -> collector; the collector passed in app.New is the distributor's main account; state is updated only on the success edges of mint and forward", 6)
 	r.Rule("C01.sameshape", "P7", "= C12.sameshape for State.Account: the configured burn is carried out whatever shape the burn state's unused Account field has (nil after import / migration, empty when created at run time); otherwise the burn share is booked but supply does not fall", 1)
@@ -307,6 +308,61 @@ func checkC01(w *World, r *Report) {
 				r.Enum("C01.moveonly", construct, w.Pos(s.Instr.Pos()), "read")
 			default:
 				r.Bad("C01.moveonly", construct, w.Pos(s.Instr.Pos()), "message tree of "+m+" reaches a supply-changing bank call: "+PathTo(rs, s.Caller))
+			}
+		}
+	}
+
+	// ---------- C01.parties ----------
+	for _, m := range []string{"cfevesting", "cfesignature"} {
+		rs := cg.Reach(ro.MSG[m])
+		for _, s := range cg.SitesIn(rs) {
+			if cg.Atom(s) != BankMove {
+				continue
+			}
+			for i, a := range s.Args() {
+				if typeString(a.Type()) != tAddr {
+					continue
+				}
+				t := w.Tracer()
+				t.Lift = 4
+				t.NoIndex = true
+				t.LiftFilter = func(f *ssa.Function) bool { _, ok := rs[f]; return ok }
+				o := t.Origins(a)
+				bad := ""
+				named := false
+				for _, l := range o.Leaves {
+					switch l.Kind {
+					case "const":
+					case "param":
+						if isCtxOrKeeper(l.V) {
+							continue
+						}
+						// a field of the message handed to the handler (or a plain string / address parameter of an entry)
+						named = true
+					case "call":
+						c, _ := l.V.(*ssa.Call)
+						n := ""
+						if c != nil {
+							n = callName(c.Common())
+						}
+						if hasSuffixAny(n, "types.AccAddressFromBech32", "types.MustAccAddressFromBech32", "types.AccAddress.String", "types.UnwrapSDKContext") || strings.Contains(n, "cosmos-sdk/types.Context.") {
+							continue
+						}
+						if hasSuffixAny(n, "auth/types.NewModuleAddress") && c != nil && len(c.Common().Args) == 1 {
+							// the module's own account only
+							own, _ := constOf(w, "x/"+m+"/types", "ModuleName")
+							if sv, ok := EvalString(c.Common().Args[0]); ok && sv == own {
+								named = true
+								continue
+							}
+						}
+						bad = shortCallee(n)
+					default:
+						bad = l.String()
+					}
+				}
+				construct := fmt.Sprintf("%s: party #%d of %s in %s", m, i, s.Method, funcName(s.Caller))
+				r.Check(bad == "" && named, "C01.parties", construct, w.Pos(s.Instr.Pos()), "the address is parsed from the message", "coins move to or from an account that the message does not name: the address comes from "+bad+" - vesting operations may only move coins between the sender, the module account and the recipient named in the message")
 			}
 		}
 	}
